@@ -618,6 +618,153 @@ def _getter_constants(tree: ast.Module) -> bool:
     return changed
 
 
+def _partial_names(tree: ast.Module) -> tuple[set, set]:
+    names, mods = set(), set()
+    for st in tree.body:
+        if isinstance(st, ast.ImportFrom) and st.module == "functools" and not st.level:
+            for a in st.names:
+                if a.name == "partial":
+                    names.add(a.asname or a.name)
+        elif isinstance(st, ast.Import):
+            for a in st.names:
+                if a.name == "functools":
+                    mods.add(a.asname or "functools")
+    return names, mods
+
+
+def _is_partial_call(e, names: set, mods: set) -> bool:
+    return isinstance(e, ast.Call) and ((isinstance(e.func, ast.Name) and e.func.id in names) or (isinstance(e.func, ast.Attribute) and e.func.attr == "partial" and isinstance(e.func.value, ast.Name) and e.func.value.id in mods))
+
+
+def _partial_constants(tree: ast.Module) -> bool:
+    """Module-level callables made by partial application, written out at their call sites:
+
+        FMT = "Failed to {} file: {}".format ; READ = partial(FMT, "read") ; READ(err)   ->   f"Failed to {'read'} file: {err}"
+        G = partial(F, 1)                     ; G(x)                                       ->   F(1, x)
+
+    Only positional arguments, only names bound once at module level, only inside the defining module."""
+    names, mods = _partial_names(tree)
+    fmt: dict = {}  # NAME -> template string
+    par: dict = {}  # NAME -> (callee expr, [bound args])
+    bound_once: dict = {}
+    for st in tree.body:
+        tg = st.targets[0] if isinstance(st, ast.Assign) and len(st.targets) == 1 else st.target if isinstance(st, ast.AnnAssign) and st.value is not None else None
+        if isinstance(tg, ast.Name):
+            bound_once[tg.id] = bound_once.get(tg.id, 0) + 1
+    for st in tree.body:
+        tg = st.targets[0] if isinstance(st, ast.Assign) and len(st.targets) == 1 else st.target if isinstance(st, ast.AnnAssign) and st.value is not None else None
+        if not isinstance(tg, ast.Name) or bound_once.get(tg.id) != 1:
+            continue
+        v = st.value
+        if isinstance(v, ast.Attribute) and v.attr == "format" and isinstance(v.value, ast.Constant) and isinstance(v.value.value, str):
+            fmt[tg.id] = v.value.value
+        elif _is_partial_call(v, names, mods) and v.args and not v.keywords and not any(isinstance(a, ast.Starred) for a in v.args) and all(isinstance(a, (ast.Constant, ast.Name)) for a in v.args[1:]) and isinstance(v.args[0], ast.Name):
+            par[tg.id] = (v.args[0], list(v.args[1:]))
+    if not fmt and not par:
+        return False
+    import copy
+    import string
+
+    changed = [False]
+
+    class _Calls(ast.NodeTransformer):
+        def visit_Call(self, node: ast.Call):
+            self.generic_visit(node)
+            for _ in range(4):
+                if isinstance(node.func, ast.Name) and node.func.id in par and not node.keywords and not any(isinstance(a, ast.Starred) for a in node.args):
+                    callee, bound = par[node.func.id]
+                    node = ast.copy_location(ast.Call(func=copy.deepcopy(callee), args=[copy.deepcopy(b) for b in bound] + list(node.args), keywords=[]), node)
+                    changed[0] = True
+                    continue
+                break
+            if isinstance(node.func, ast.Name) and node.func.id in fmt and not node.keywords and not any(isinstance(a, ast.Starred) for a in node.args):
+                parts = list(string.Formatter().parse(fmt[node.func.id]))
+                if all(fld in (None, "") and not spec and conv is None for _lit, fld, spec, conv in parts) and sum(1 for p_ in parts if p_[1] is not None) == len(node.args):
+                    vals: list = []
+                    it = iter(node.args)
+                    for lit, fld, _spec, _conv in parts:
+                        if lit:
+                            vals.append(ast.Constant(value=lit))
+                        if fld is not None:
+                            vals.append(ast.FormattedValue(value=next(it), conversion=-1, format_spec=None))
+                    js = ast.copy_location(ast.JoinedStr(values=vals), node)
+                    for ch in ast.walk(js):
+                        if not hasattr(ch, "lineno"):
+                            ast.copy_location(ch, node)
+                    changed[0] = True
+                    return js
+            return node
+
+    _Calls().visit(tree)
+    return changed[0]
+
+
+class _PartialMethodDesugar(ast.NodeTransformer):
+    """`x = partial(self.m, a, b)` in a method, m a method of the same class without further parameters to fill in:
+    a nested function with the body of m written out (parameters replaced by the bound arguments) - the closure the
+    partial object stands for.
+
+        self._cancel_save = partial(self._cancel, task)      async def __partial1():
+                                                       ->        <body of _cancel with its parameter := task>
+                                                             self._cancel_save = __partial1
+    """
+
+    def __init__(self, tree: ast.Module) -> None:
+        self.names, self.mods = _partial_names(tree)
+        self.count = 0
+        self.cls_stack: list = []
+
+    def visit_ClassDef(self, node: ast.ClassDef):
+        self.cls_stack.append(node)
+        self.generic_visit(node)
+        self.cls_stack.pop()
+        return node
+
+    def _function(self, fn):
+        self.generic_visit(fn)
+        if not self.cls_stack or not (self.names or self.mods):
+            return fn
+        cls = self.cls_stack[-1]
+        import copy
+
+        new_body = []
+        for st in fn.body:
+            v = st.value if isinstance(st, (ast.Assign, ast.AnnAssign)) else None
+            done = False
+            if v is not None and _is_partial_call(v, self.names, self.mods) and v.args and not v.keywords and isinstance(v.args[0], ast.Attribute) and isinstance(v.args[0].value, ast.Name) and v.args[0].value.id in ("self", "cls") and all(isinstance(a, ast.Name) for a in v.args[1:]):
+                m = next((x for x in cls.body if isinstance(x, (ast.FunctionDef, ast.AsyncFunctionDef)) and x.name == v.args[0].attr), None)
+                if m is not None and not m.args.vararg and not m.args.kwarg and not m.args.kwonlyargs:
+                    decos = [d.id if isinstance(d, ast.Name) else None for d in m.decorator_list]
+                    static = decos == ["staticmethod"]
+                    plain = decos == []
+                    params = [a.arg for a in m.args.args]
+                    if (static or plain) and not any(isinstance(n, ast.Return) and n.value is not None for n in ast.walk(m)):
+                        own = params if static else params[1:]
+                        if len(own) == len(v.args) - 1:
+                            ren = dict(zip(own, [a.id for a in v.args[1:]]))
+                            if plain and params:
+                                ren[params[0]] = v.args[0].value.id
+                            locals_ = {n.id for n in ast.walk(m) if isinstance(n, ast.Name) and isinstance(n.ctx, ast.Store)}
+                            if not (locals_ & set(ren.values())):
+                                self.count += 1
+                                nm = f"__partial{self.count}"
+                                body = [_Rename(ren).visit(copy.deepcopy(b)) for b in _strip_doc(m.body)] or [ast.Pass()]
+                                kind = ast.AsyncFunctionDef if isinstance(m, ast.AsyncFunctionDef) else ast.FunctionDef
+                                fd = kind(name=nm, args=ast.arguments(posonlyargs=[], args=[], vararg=None, kwonlyargs=[], kw_defaults=[], kwarg=None, defaults=[]), body=body, decorator_list=[], returns=None, type_comment=None, type_params=[])
+                                ast.copy_location(fd, st)
+                                st2 = copy.copy(st)
+                                st2.value = ast.copy_location(ast.Name(id=nm, ctx=ast.Load()), v)
+                                new_body += [fd, st2]
+                                done = True
+            if not done:
+                new_body.append(st)
+        fn.body = new_body
+        return fn
+
+    visit_FunctionDef = _function
+    visit_AsyncFunctionDef = _function
+
+
 class _ExitStackDesugar(ast.NodeTransformer):
     """`async with AsyncExitStack() as stack:` whose callbacks are registered by top-level statements of the block.
 
@@ -759,6 +906,11 @@ class _Unsupported(Exception):
 
 def desugar(tree: ast.Module) -> ast.Module:
     changed = _getter_constants(tree)
+    if "partial" in {n.attr if isinstance(n, ast.Attribute) else getattr(n, "id", None) for n in ast.walk(tree) if isinstance(n, (ast.Name, ast.Attribute))}:
+        changed = _partial_constants(tree) or changed
+        pm = _PartialMethodDesugar(tree)
+        tree = pm.visit(tree)
+        changed = changed or pm.count > 0
     if any(isinstance(n, (ast.With, ast.AsyncWith)) and any(isinstance(c, ast.Call) and isinstance(c.func, (ast.Name, ast.Attribute)) and (c.func.id if isinstance(c.func, ast.Name) else c.func.attr) in _ExitStackDesugar.STACKS for it in n.items for c in [it.context_expr]) for n in ast.walk(tree)):
         es = _ExitStackDesugar()
         tree = es.visit(tree)
